@@ -213,11 +213,33 @@ def _first_call(e):
     return None
 
 
-def normalise(tree):
+def _new_closures(tree, modname):
+    """{id(outer FunctionDef): [nested FunctionDef, ...]} for nested functions that are not in the baseline list of the
+    module (vocab.json, written by tools/gen_vocab.py): local helpers introduced by a later edit"""
+    if modname is None: return {}
+    try:
+        from . import vocab
+        base = vocab.nested_baseline().get(modname)
+    except Exception:
+        base = None
+    if base is None: return {}
+    base = set(base)
+    out = {}
+    for f in ast.walk(tree):
+        if isinstance(f, ast.FunctionDef):
+            for g in ast.walk(f):
+                if isinstance(g, ast.FunctionDef) and g is not f and ('%s.%s' % (f.name, g.name)) not in base:
+                    # only closures defined directly in f (not inside another nested def)
+                    out.setdefault(id(f), []).append(g)
+    return out
+
+
+def normalise(tree, modname=None):
     tree = _Norm().visit(tree)
     ast.fix_missing_locations(tree)
-    if isinstance(tree, ast.Module) and any(isinstance(x, ast.FunctionDef) and _is_private(x.name) for x in ast.walk(tree)):
-        tree = inline_helpers(tree)          # N8
+    closures = _new_closures(tree, modname) if isinstance(tree, ast.Module) else {}
+    if isinstance(tree, ast.Module) and (closures or any(isinstance(x, ast.FunctionDef) and _is_private(x.name) for x in ast.walk(tree))):
+        tree = inline_helpers(tree, closures)          # N8
         tree = _Norm().visit(tree)           # the spliced bodies go through N1-N7 with their new surroundings
         ast.fix_missing_locations(tree)
     return tree
@@ -279,6 +301,7 @@ class _Bind(ast.NodeTransformer):
 class _Inliner(object):
     def __init__(self, tree):
         self.count = 0
+        self.skip = set()
         self.mod_helpers = dict((f.name, f) for f in tree.body if isinstance(f, ast.FunctionDef) and _is_private(f.name) and self._ok_sig(f))
         self.cls_helpers = {}
         for c in tree.body:
@@ -463,12 +486,34 @@ class _ExprInline(ast.NodeTransformer):
         return ast.copy_location(new, node)
 
 
-def inline_helpers(tree):
+def inline_helpers(tree, closures=None):
     inl = _Inliner(tree)
-    if not inl.mod_helpers and not inl.cls_helpers: return tree
+    closures = closures or {}
+    if not inl.mod_helpers and not inl.cls_helpers and not closures: return tree
+
+    def do(f, clsname):
+        mine = [g for g in closures.get(id(f), []) if inl._ok_sig(g) and not (g.args.args and g.args.args[0].arg == 'self')]
+        saved = dict(inl.mod_helpers)
+        for g in mine: inl.mod_helpers[g.name] = g          # visible as helpers while this function is processed
+        try:
+            inl.skip = set(id(g) for g in mine)
+            inl.run_function(f, clsname)
+        finally:
+            inl.mod_helpers = saved
+            inl.skip = set()
+        # a closure that is no longer referenced is dropped
+        for g in mine:
+            refs = [x for x in ast.walk(f) if isinstance(x, ast.Name) and x.id == g.name]
+            if not refs:
+                for node in ast.walk(f):
+                    for field in ('body', 'orelse', 'finalbody'):
+                        blk = getattr(node, field, None)
+                        if isinstance(blk, list) and g in blk:
+                            blk.remove(g)
+                            if not blk: blk.append(ast.copy_location(ast.Pass(), g))
     for top in tree.body:
-        if isinstance(top, ast.FunctionDef): inl.run_function(top, None)
+        if isinstance(top, ast.FunctionDef): do(top, None)
         elif isinstance(top, ast.ClassDef):
             for f in top.body:
-                if isinstance(f, ast.FunctionDef): inl.run_function(f, top.name)
+                if isinstance(f, ast.FunctionDef): do(f, top.name)
     return tree
